@@ -17,7 +17,8 @@ structure DimsCheck where
   vidx : Option (List Nat)
   deriving Repr, DecidableEq, BEq
 
-/-- `tt_dimscheck(N, M, dims, exclude_dims)` branch by branch. -/
+/-- `tt_dimscheck(N, M, dims, exclude_dims)` branch by branch (with the repaired code's
+rejection of modes `≥ N` and of repeated modes). -/
 def dimscheck (N : Nat) (M : Option Nat) (dims excl : Option (List Int)) :
     Except Reject DimsCheck :=
   match dims, excl with
@@ -38,6 +39,10 @@ def dimscheck (N : Nat) (M : Option Nat) (dims excl : Option (List Int)) :
     | .error e => .error e
     | .ok dimArr =>
       if dimArr.any (· < 0) then .error .reject else
+      -- repaired code: modes must be below N and must not repeat
+      if dimArr.any (fun x => decide ((N : Int) ≤ x)) then .error .reject else
+      if dimArr.eraseDups.length != dimArr.length then .error .reject else
+      if (match excl with | some e => e.eraseDups.length != e.length | none => false) then .error .reject else
       let P := dimArr.length
       let sidx := argsortInt dimArr
       let sdims := sidx.map (fun k => (dimArr.getD k 0).toNat)
